@@ -174,12 +174,12 @@ Proof.
   unfold emitted, field_to_json, emit. unfold value_ok in Hv. rewrite Hp in *. rewrite Hop.
   assert (W' := W). unfold wf_field in W'. rewrite Hp in W'. apply andb_prop in W' as [_ Wh].
   apply andb_true5 in Wh as [_ [Wwr [_ [_ _]]]]. apply is_some'_false in Wwr. rewrite Wwr.
-  cbn [orb]. rewrite !orb_true_r.
+  cbn [orb].
   destruct (ptype_eqb (fty f) TMessage).
-  { destruct x; try congruence; try discriminate Hv; reflexivity. }
+  { destruct x; try congruence; try discriminate Hv; rewrite ?orb_true_r; cbn [orb]; reflexivity. }
   destruct (ptype_eqb (fty f) TMap).
   { destruct x, (fmap f) as [[? ?]|]; reflexivity. }
-  destruct x; reflexivity.
+  rewrite orb_true_r. destruct x; reflexivity.
 Qed.
 
 Lemma norm_not_ph sc x : x <> PPlaceholder -> norm_pv sc x <> PPlaceholder.
